@@ -5,7 +5,8 @@
     (flt exc  <table> <pred|N> <kwconds> <dictconds|N>)          -> ok <table> | err Kind
     (flt find <table> S:key <pred|N> <kwconds> <dictconds|N>)    -> ok <cell>  | err Kind
   table     (D (col (L cell*))*)
-  conds     (D (col value)*)      value: cell | (L cell*) | (T cell*) | (re S:literal)
+  conds     (D (col value)*)      value: cell | (L cell*) | (T cell*) | (re S:pattern) | (re S:pattern I)
+            pattern: [^] (alphanumeric | .)* [$]; `I` = re.IGNORECASE
   pred      (fn isnone S:a) | (fn notnone S:a) | (fn isstr S:a) | (fn samenone S:a S:b) | (fn const B:0|B:1)
 -/
 import PygModel.Filter
@@ -18,13 +19,22 @@ abbrev St := Unit
 def init : St := ()
 def modelName : String := "flt"
 
-/-- only literal patterns are modelled (`search` = substring containment) -/
-def literal (p : String) : Bool := p.toList.all fun c => c.isAlphanum
+/-- the modelled patterns: optional `^`, then alphanumeric characters and `.`, optional `$` -/
+def rePatOf (p : String) (icase : Bool) : Option RePat :=
+  let cs := p.toList
+  let (bol, cs) := match cs with | '^' :: r => (true, r) | r => (false, r)
+  let (eol, cs) := match cs.reverse with | '$' :: r => (true, r.reverse) | _ => (false, cs)
+  if cs.all fun c => c.isAlphanum || c == '.' then
+    some ⟨bol, eol, icase, cs.map fun c => if c == '.' then Option.none else some c⟩
+  else Option.none
 
 def condOf : Sexp → Option Cond
   | .node [.atom "re", p] => do
-      let p ← strOf p
-      if literal p then pure (.regex p) else Option.none
+      let r ← rePatOf (← strOf p) false
+      pure (.regex r.search)
+  | .node [.atom "re", p, .atom "I"] => do
+      let r ← rePatOf (← strOf p) true
+      pure (.regex r.search)
   | x => (colValOf x).map Cond.ofValue
 
 def predOf : Sexp → Option (Option Pred)
